@@ -17,6 +17,7 @@ func repoRootFromEnv() string {
 	}
 	return "/repo"
 }
+
 const modPath = "github.com/bio-routing/bio-rd"
 
 // Descriptor: /verif/harness/<id>/descriptor.json
